@@ -26,8 +26,10 @@ TOls == At("Ols") /\ Step /\ POls(Ev.j, Ev.rssPls, Ev.rssOls, Ev.err, Ev.full)
 TBeta == At("Beta") /\ Step /\ PBeta(Ev.a, Ev.errTrain, Ev.errNew)
 TStat == At("Stat") /\ Step /\ PStat(Ev.a, Ev.j, Ev.r2gap, Ev.rmsegap)
 TAffine == At("Affine") /\ Step /\ PAffine(Ev.c, Ev.d, Ev.errTrain, Ev.errNew)
+TXScale == At("XScale") /\ Step /\ PXScale(Ev.lg, Ev.errTrain, Ev.errNew)
+TReuse == At("Reuse") /\ Step /\ PReuse(Ev.calls, Ev.err)
 
-TNext == TReset \/ TSkip \/ TFit \/ TLv \/ TCol \/ TResid \/ TTab \/ TEnd \/ TRss \/ TOls \/ TBeta \/ TStat \/ TAffine
+TNext == TReset \/ TSkip \/ TFit \/ TLv \/ TCol \/ TResid \/ TTab \/ TEnd \/ TRss \/ TOls \/ TBeta \/ TStat \/ TAffine \/ TXScale \/ TReuse
 TSpec == TInit /\ [][TNext]_tvars
 TraceAccepted == Accepted
 Diag == ShowCursor(l)
